@@ -68,6 +68,12 @@ CHECKS = {
         "Streams identified by value tuples; three known findings (O<n> name extending a label, label on a non-leaf user node, ambiguous suffix) excluded by input-only predicates.",
         "DESIGN.md section 5 C10",
     ),
+    "C19": (
+        "two Hypothesis RuleBasedStateMachines (stream setters; collection operations) against explicit models",
+        "Stateful model-based search (2 x 1.5k machines x <=12 steps quick / 2 x 50k x <=30 thorough): stream invariants (CP x span = duty, min <= max, bounds = supply/target, type and shift direction follow the temperatures, htr = 1/htc) after every setter incl. flips and equality; collection vs model list (identity-exact membership, len, iteration = permutation monotone in the sort key, index, contains, remove of absent raises KeyError, concatenation keeps both operands, replace keeps all members).",
+        "Members are not mutated while inside a collection (not claimed by the property); ties in the sort key may come in any order.",
+        "DESIGN.md section 5 C19",
+    ),
     "C20": (
         "Hypothesis @given over arrangement x label form x (NTU, c, passes): round-trip, bound, limit and symmetry oracles",
         "Generated-input search (12k quick / 600k thorough cases, 16 shards) against round-trip, counter-flow bound (independent formula), c=0 limit, monotonicity and LMTD bound/symmetry/refusal oracles; scalar float domain is sampled densely with 0/1 boosted, so a wrong formula or dispatch shows within seconds; absence is not proven.",
